@@ -71,7 +71,7 @@ CLAIMED = {
  "C06": dict(
    technique="bounded explicit-state model checking: exhaustive enumeration of instants round every table entry (every second -45..+85 s x 4 sub-second offsets, every nanosecond within +-3 us / +-30 us, every second of the day before and after each entry) x directions x 34 provider configurations through the real conversions and accessors, plus stateright BFS over sequences mixing conversions among UTC/TAI/GPST/TT with +- steps from states next to four table entries, against a table-lookup model parsed from the two shipped data files",
    text="The built-in table (forward, reverse, indexed) and the file provider are compared entry by entry with the IERS list parsed at check time from data/leap-seconds.list and naif0012.txt (three-way agreement with a digest in the harness). UTC->TAI, TAI->UTC and the round trip are checked to the nanosecond on every lattice instant (28 IERS + 14 SOFA entries, dates before 1960/1972 and after 2017, +-10 500 years); the accessor and 34 file providers (every prefix of the list, 5 format variants) are checked absolutely on TAI-labelled epochs and relatively (file == built-in) on every scale.",
-   note="TAI instants inside an inserted interval (the leap second itself, the 10 s of 1972-01-01) have no UTC count: the value is a counted don't-care bounded by the inserted amount (the suite pins one convention). The accessor's answer for a TAI epoch between an entry's timestamp and its TAI instant is not judged.",
+   note="TAI instants inside an inserted interval (the leap second itself, the 10 s of 1972-01-01) have no UTC count: only the two holding values do not go backwards; the value the current convention produces is known finding D37 (pinned by tests/epoch.rs:198). The accessor's answer for a TAI epoch between an entry's timestamp and its TAI instant is not judged (the statement defines the conversion, not the accessor; tests/epoch.rs:1132 pins the early switch).",
    ref="DESIGN.md §4 C06"),
  "C16": dict(
    technique="bounded explicit-state model checking: complete enumeration of the weekday algebra (7 x 256 x 9 operations), exhaustive enumeration of the calendar lattice x day-boundary times of day for the accessors and next/previous, plus stateright BFS over chains of next/previous, judged by (days since 1900-01-01) mod 7",
@@ -124,6 +124,23 @@ EXTRA = {
  "C19": " Sub-second digit-group lattice {000,001,250,999}^3 through the nine constants and %f; to_isoformat; %w accepts either weekday reading.",
  "C20": " Day-of-year sweep includes every leap-second year and the next, day fractions up to 1-1e-9, and duration_in_year read directly.",
 }
+# what the audit round added / tightened (DESIGN.md §6.3)
+AUDIT = {
+ "C02": " The non-failing 64-bit accessor may return the i64 bound only when the count does not fit.",
+ "C04": " Float seconds include integer-valued floats whose product with 1e9 is inexact in f64.",
+ "C06": " Inside an inserted interval only the entry's UTC timestamp or the nanosecond before it do not go backwards; today's convention is known finding D37.",
+ "C10": " Numeric forms: exact integer expectation, tolerance 8 ulp of the value itself + 2 ns.",
+ "C11": " Parsed numbers are compared with the value the decimal text denotes (30 values incl. 4.1, 0.57 and counts beyond 2^53 ns).",
+ "C12": " c12.far[cross]: two different uniform scales near the range ends (known finding D51 where the conversion saturates).",
+ "C14": " ceil is judged also when the floor is below the range.",
+ "C15": " Spans equal to Duration::MAX; for mixed-scale series across a leap second either span reading is accepted.",
+ "C16": " The _at_midnight/_at_noon variants are judged for every epoch of every scale.",
+ "C17": " Constructors from_jde_et/from_jde_tdb and the GNSS wrappers; tolerance 8 ulp of max(|x|, one second) + 1 ns truncation.",
+ "C19": " Offsets are parsed back with the same format; structure families of formats (extra tokens, names in every position, two-character separators, missing separators), six structural classes being known findings D43-D48.",
+ "C20": " The {:o} form prints the GPST count or returns a formatting error.",
+}
+for _k, _v in AUDIT.items():
+    EXTRA[_k] = EXTRA.get(_k, "") + _v
 for _k, _v in EXTRA.items():
     CLAIMED[_k]["text"] += _v
 
